@@ -58,6 +58,26 @@ type schedRec struct {
 	Recv  int `json:"recv"`
 }
 
+// sessionStep / sessionPlan: a sequence of deliveries to ONE validator instance with the verdict the
+// specification gives each delivery in the state the earlier ones left behind.
+type sessionStep struct {
+	U      int    `json:"u"`
+	F      string `json:"f"`
+	J      int    `json:"j"`
+	I      int    `json:"i"`
+	Sender int    `json:"sender"`
+	V      string `json:"v"`
+}
+
+type sessionPlan struct {
+	Name  string        `json:"name"`
+	Loc   int           `json:"loc"`
+	Pub   int           `json:"pub"`
+	F     string        `json:"f"`
+	T     int           `json:"t"`
+	Steps []sessionStep `json:"steps"`
+}
+
 type table struct {
 	D         int                          `json:"d"`
 	P         int                          `json:"p"`
@@ -66,6 +86,7 @@ type table struct {
 	Cor       map[string][][]string        `json:"cor"`
 	FieldWhat map[string]map[string]string `json:"fieldwhat"`
 	Val       []valRec                     `json:"val"`
+	Sessions  []sessionPlan                `json:"sessions"`
 	Proto     map[string]string            `json:"proto"`
 	Lens      map[string]int               `json:"lens"`
 	PeerOf    [][]int                      `json:"peerof"`
@@ -94,6 +115,7 @@ type kase struct {
 	What   string `json:"what,omitempty"` // sub-check of a create / sched / pad case
 	Fix    string `json:"fix"`
 	Cur    string `json:"cur"`
+	Plan   *sessionPlan `json:"plan,omitempty"` // session cases
 	// for index corruptions both alternatives (the bytes decide which applies)
 	FixBenign string `json:"fix_benign,omitempty"`
 	CurBenign string `json:"cur_benign,omitempty"`
@@ -307,6 +329,8 @@ func caseTag(k *kase) string {
 		return k.F
 	case "create", "sched", "pad":
 		return k.What
+	case "session":
+		return k.What
 	}
 	return "subset"
 }
@@ -441,6 +465,8 @@ func (e *engine) runCase(k *kase) {
 		e.validateCase(k, n)
 	case "create":
 		e.createCase(k)
+	case "session":
+		e.sessionCase(k)
 	case "sched":
 		e.schedCase(k)
 	default:
@@ -601,6 +627,154 @@ func (e *engine) validateCase(k *kase, n int) {
 		return
 	}
 	e.judge(k, obs, detail, k.Fix, k.Cur)
+}
+
+// handBuilt makes the units of a message the way CreatePropellerUnits does, but with the Merkle
+// tree over the leaf encoding the validator under test verifies against ("proto": the protobuf
+// encoding of the unit's ShardData, what the validator does today; "raw": the shard bytes, what
+// CreatePropellerUnits does).  The stateful behaviour of the validator is thereby observable
+// whichever way the leaf-encoding disagreement (known finding H17) stands or gets resolved.
+func (e *engine) handBuilt(priv crypto.PrivKey, msg []byte, d, p int, leaf string) ([]propeller.Unit, error) {
+	cid := e.w.committeeID()
+	nonce := nonceOf(false)
+	shards, err := reedsolomon.EncodeData(propeller.PadMessage(msg, d), d, p)
+	if err != nil {
+		return nil, err
+	}
+	leaves := make([][]byte, len(shards))
+	for i, s := range shards {
+		if leaf == "proto" {
+			leaves[i] = propeller.ShardData{s}.MarshalProto()
+		} else {
+			leaves[i] = s
+		}
+	}
+	root, tree := merkle.New(leaves)
+	mr := propeller.MessageRoot(root)
+	sig, err := propeller.SignMessage(priv, &mr, &cid, nonce)
+	if err != nil {
+		return nil, err
+	}
+	units := make([]propeller.Unit, len(shards))
+	for i, s := range shards {
+		units[i] = propeller.Unit{CommitteeID: cid, Publisher: pid(priv), MessageRoot: mr, MerkleProof: tree[i],
+			Signature: sig, ShardIndex: propeller.ShardIndex(i), ShardData: propeller.ShardData{s}, Nonce: nonce}
+	}
+	return units, nil
+}
+
+// sessionCase drives one plan on ONE real UnitValidator: genuine and junk units in the plan's
+// order; every verdict is compared with the specification's, which depends on what the validator
+// accepted before - and on nothing it rejected.  After a "poison-all" plan the accepted shards
+// must reach the build threshold and rebuild the exact message.
+func (e *engine) sessionCase(k *kase) {
+	pl := k.Plan
+	n := k.D + k.P
+	np := n + 1
+	ks := e.w.committee(np)
+	peers := make([]propeller.PeerCommittee, np)
+	for i, key := range ks {
+		peers[i] = propeller.PeerCommittee{ID: pid(key), Stake: 1}
+	}
+	local := peers[pl.Loc].ID
+	msg := e.w.message(k.D, k.P, 57)
+	for _, leaf := range []string{"proto", "raw"} {
+		var units []propeller.Unit
+		accepted := make([][]byte, n)
+		step, want := -1, ""
+		obs, detail := guard(func() string {
+			sch, err := propeller.NewScheduler(local, append([]propeller.PeerCommittee(nil), peers...))
+			if err != nil {
+				return "other:scheduler:" + err.Error()
+			}
+			if units, err = e.handBuilt(ks[pl.Pub], msg, k.D, k.P, leaf); err != nil {
+				return "other:build:" + err.Error()
+			}
+			// which leaf encoding does this validator verify against?
+			probe := propeller.NewValidator(peers[pl.Pub].ID, sch)
+			s0 := pl.Steps[0]
+			for _, st := range pl.Steps {
+				if st.F == "none" {
+					s0 = st
+					break
+				}
+			}
+			if err := probe.Validate(cloneUnit(&units[s0.U]), peers[s0.Sender].ID); err != nil {
+				return "setup:" + validateClass(err)
+			}
+			v := propeller.NewValidator(peers[pl.Pub].ID, sch)
+			for si, st := range pl.Steps {
+				c := cloneUnit(&units[st.U])
+				corrupt(c, st.F, map[bool]int{true: np - 1, false: st.J}[st.F == "indexoob"],
+					e.w.rng("session", k.D, k.P, pl.Name, pl.F, pl.T, si), "")
+				sender := local
+				if st.Sender < np {
+					sender = peers[st.Sender].ID
+				}
+				got := validateClass(v.Validate(c, sender))
+				if got != st.V {
+					step, want = si, st.V
+					return got
+				}
+				if got == "ok" {
+					accepted[int(c.ShardIndex)] = bytes.Clone(c.ShardData[0])
+				}
+			}
+			return "conforms"
+		})
+		if strings.HasPrefix(obs, "setup:") {
+			if leaf == "proto" {
+				continue // the validator wants raw leaves: try those
+			}
+			e.out.Count("session_setup_impossible", 1)
+			return
+		}
+		e.out.Count("session_leaf_"+leaf, 1)
+		kk := *k
+		if obs != "conforms" {
+			st := pl.Steps[max(step, 0)]
+			kk.What = fmt.Sprintf("%s/junk=%s/step%d(%s)", pl.Name, pl.F, step, st.F)
+			if st.F == "none" && want == "ok" && obs == "dup" {
+				kk.What = "genuine-unit-rejected-as-duplicate-after-a-rejected-unit/junk=" + pl.F
+			}
+			if step >= 0 {
+				detail += fmt.Sprintf(" plan %s aimed at index %d, step %d delivers unit %d (%s) as index %d", pl.Name, pl.T, step, st.U, st.F, st.I)
+			}
+			e.judge(&kk, obs, detail, want, "")
+			return
+		}
+		kk.What = pl.Name + "/junk=" + pl.F
+		e.judge(&kk, "conforms", "", "conforms", "")
+		if pl.Name == "poison-all" {
+			kk.What = "poison-all/threshold-and-rebuild/junk=" + pl.F
+			got, detail := guard(func() string {
+				have := 0
+				for _, s := range accepted {
+					if s != nil {
+						have++
+					}
+				}
+				if have < k.D {
+					return fmt.Sprintf("only-%d-validated-shards", have)
+				}
+				rec, err := reedsolomon.RecoverData(accepted, k.D, k.P)
+				if err != nil {
+					return "err:" + err.Error()
+				}
+				var padded []byte
+				for i := 0; i < k.D; i++ {
+					padded = append(padded, rec[i]...)
+				}
+				back, err := propeller.UnpadMessage(padded)
+				if err != nil || !bytes.Equal(back, msg) {
+					return "other"
+				}
+				return "msg"
+			})
+			e.judge(&kk, got, detail, "msg", "")
+		}
+		return
+	}
 }
 
 // createCase: the publisher side: shape of the units, every proof verifies against the signed
@@ -832,6 +1006,9 @@ func (e *engine) enumerate(in *input, emit func(kase)) {
 		curVal := map[string]string{}
 		for i := range cur.Val {
 			curVal[valKey(&cur.Val[i])] = cur.Val[i].V
+		}
+		for i := range fix.Sessions {
+			emit(kase{Kind: "session", D: d, P: p, Plan: &fix.Sessions[i], Fix: "conforms"})
 		}
 		for i := range fix.Val {
 			r := &fix.Val[i]
